@@ -102,7 +102,7 @@ func genC12(w *World, res *CheckResult) {
 
 // genLexerPositions: next and backup maintain loc/prev consistently with end/width.
 func genLexerPositions(w *World, res *CheckResult) {
-	for _, n := range []string{"lexer.lexer.next", "lexer.lexer.backup", "lexer.lexer.emitValue", "lexer.lexer.ignore"} {
+	for _, n := range []string{"lexer.lexer.next", "lexer.lexer.backup", "lexer.lexer.emitValue", "lexer.lexer.ignore", "lexer.lexer.acceptWord", "lexer.unhex", "lexer.unescapeChar"} {
 		fn, ct := w.Func(n), w.Contracts[n]
 		if fn == nil || ct == nil {
 			res.Obls = append(res.Obls, missingObl(n+"/exists", "function or contract missing"))
@@ -113,7 +113,7 @@ func genLexerPositions(w *World, res *CheckResult) {
 		e.VerifyFunc(fn, ct, nil)
 		delete(w.forceInline, n)
 		for _, o := range e.obls {
-			if !strings.Contains(o.Name, "/safe:") {
+			if !strings.Contains(o.Name, "/safe:") || ct.Mode == "nopanic" {
 				res.Obls = append(res.Obls, o)
 			}
 		}
